@@ -15,4 +15,7 @@ for d in /verif/seeded/*/; do
   v=MISSED; [ "$rc" = "EXIT=1" ] && v=CAUGHT
   echo "$v $id by=$chk $rc $(( $(date +%s) - s ))s $key"
 done
+# every scratch copy compiles under a path of its own: the Go build cache grows by
+# ~300 MB per patch (77 GB after six rounds made the sandbox impossible to snapshot)
+[ "$FILTER" = "." ] && GOFLAGS=-mod=mod go clean -cache
 echo RUNSEEDED-DONE
